@@ -565,6 +565,46 @@ Proof.
       destruct (selected sel y) eqn:Hsel; auto. exfalso. apply (proj2 (Hrd y)). auto.
 Qed.
 
+
+Lemma start_strict sel A0 p p' : NoDup (ids A0) -> strict_rems (prem p) A0 <> None ->
+  prem p' = prem p ++ filter (selected sel) (rmall (prem p) A0) -> strict_rems (prem p') A0 <> None.
+Proof.
+  intros N H E. rewrite E. destruct (strict_rems_inv _ _ N H) as (Np & Hall). apply strict_rems_ok.
+  - rewrite ids_app. apply nodup_app_iff. split; auto.
+    split; [apply nodup_ids_filter; apply rmall_nodup; auto|].
+    intros n Hn Hn'. apply in_ids_inv in Hn as (x & Hx & <-). apply in_ids_inv in Hn' as (y & Hy & Es).
+    apply filter_In in Hy as [Hy _]. apply (rmall_removed (prem p) A0 x N Hx). rewrite <- Es. now apply in_ids.
+  - intros x Hx. apply in_app_or in Hx as [Hx|Hx]; auto. apply filter_In in Hx as [Hx _].
+    eapply rmall_ids_subset. apply in_ids. eauto.
+Qed.
+
+Lemma nodup_ids_skipn n l : NoDup (ids l) -> NoDup (ids (skipn n l)).
+Proof. intros H. rewrite <- (firstn_skipn n l), ids_app in H. apply nodup_app_iff in H. tauto. Qed.
+
+Lemma remove_at_end_strict sel len en A p rem' rd1 :
+  NoDup (ids A) -> Inv sel (rmall (prem p) A) rd1 -> NoDup (ids rem') ->
+  (forall x, In x rem' -> In x (prem p) /\ In (sid x) (ids (keep sel A))) ->
+  strict_rems (prem (remove_at_end len en (step A p) p rem' rd1)) (keep sel A) <> None.
+Proof.
+  intros NA HI Nr Hr. rewrite (step_rmall A p). set (O := rmall (prem p) A) in *.
+  pose proof HI as (NO & Nrd & Hrd).
+  unfold remove_at_end. destruct (negb (Nat.eqb en len) && negb (is_nil rd1)).
+  - rewrite firstn_original.
+    destruct (min_pos_spec rd1 O) as (f & Ef & Hf).
+    { intros x Hx. apply in_ref_ids. apply in_ids. now apply Hrd. }
+    rewrite Ef. cbn [prem]. set (S := skipn f O). apply strict_rems_ok.
+    + rewrite ids_app. apply nodup_app_iff. split; auto.
+      split; [apply nodup_ids_filter; now apply nodup_ids_skipn|].
+      intros n Hn Hn'. apply in_ids_inv in Hn as (x & Hx & <-). apply in_ids_inv in Hn' as (y & Hy & Es).
+      apply filter_In in Hy as [Hy _]. apply skipn_in in Hy.
+      apply (rmall_removed (prem p) A x NA (proj1 (Hr x Hx))). fold O. rewrite <- Es. now apply in_ids.
+    + intros x Hx. apply in_app_or in Hx as [Hx|Hx]; [now apply Hr|].
+      apply filter_In in Hx as [Hx Hn]. apply skipn_in in Hx. apply negb_true_iff in Hn.
+      rewrite (Inv_in_ref sel O rd1 x HI Hx) in Hn. apply in_ids. apply keep_in. split; auto.
+      eapply rmall_subset; eauto.
+  - cbn [prem]. apply strict_rems_ok; auto. intros x Hx. now apply Hr.
+Qed.
+
 (* ---------- the structure of the loop ---------- *)
 Lemma upto_cons i k p t : upto i ((k, p) :: t) = if k <=? i then (k, p) :: upto i t else upto i t.
 Proof. reflexivity. Qed.
@@ -645,7 +685,8 @@ Qed.
 Lemma mid_sem sel mid : forall A rd mid' rd', ssorted mid -> nd_run mid A -> Inv sel A rd ->
   mid_tr sel mid rd = (mid', rd') ->
   map fst mid' = map fst mid /\ Inv sel (run A mid) rd' /\ run (keep sel A) mid' = keep sel (run A mid)
-  /\ forall i, run (keep sel A) (upto i mid') = keep sel (run A (upto i mid)).
+  /\ (forall i, run (keep sel A) (upto i mid') = keep sel (run A (upto i mid)))
+  /\ (strict_run mid A -> strict_run mid' (keep sel A)).
 Proof.
   induction mid as [|[k p] mid IH]; intros A rd mid' rd' Hs HN HI E.
   - inversion E; subst. cbn. auto.
@@ -657,9 +698,14 @@ Proof.
     { rewrite step_rmall in *. now apply Inv_add. }
     assert (Hstep : step (keep sel A) (mkP (keep sel (padd p)) rem') = keep sel (step A p)).
     { rewrite !step_rmall. cbn [prem padd]. now rewrite R1, keep_app. }
-    destruct (IH (step A p) _ r' rd3 Hs' HN2 HI2 EM) as (I1 & I2 & I3 & I4).
+    destruct (IH (step A p) _ r' rd3 Hs' HN2 HI2 EM) as (I1 & I2 & I3 & I4 & I5).
     split; [cbn [map fst]; now f_equal|]. split; [now rewrite run_cons|].
     split; [now rewrite !run_cons, Hstep|].
+    split.
+    2:{ cbn [strict_run prem]. intros [Q1 Q2]. rewrite Hstep. split; [|now apply I5].
+        destruct (strict_rems_inv _ _ (proj1 HI) Q1) as (Np & Hall).
+        destruct (rem_pass_strict sel (prem p) A rd rem' rd1 HI Np Hall ER) as (N' & H').
+        apply strict_rems_ok; auto. intros x Hx. now apply H'. }
     intros i. rewrite !upto_cons. destruct (k <=? i) eqn:Eki.
     + rewrite !run_cons, Hstep. apply I4.
     + apply Nat.leb_gt in Eki. rewrite (upto_none i mid), (upto_none i r'); [reflexivity| |].
@@ -684,11 +730,16 @@ Lemma loop_shape sel len start en pre ps mid pe post :
     /\ run (keep sel (step (run [] pre) ps)) mid' = keep sel (run (step (run [] pre) ps) mid)
     /\ (forall i, run (keep sel (step (run [] pre) ps)) (upto i mid')
                   = keep sel (run (step (run [] pre) ps) (upto i mid)))
-    /\ step (keep sel (run (step (run [] pre) ps) mid)) pe' = step (run (step (run [] pre) ps) mid) pe.
+    /\ step (keep sel (run (step (run [] pre) ps) mid)) pe' = step (run (step (run [] pre) ps) mid) pe
+    /\ (strict_run (pre ++ (start, ps) :: mid ++ (en, pe) :: post) [] ->
+        strict_rems (prem ps') (run [] pre) <> None
+        /\ strict_run mid' (keep sel (step (run [] pre) ps))
+        /\ strict_rems (prem pe') (keep sel (run (step (run [] pre) ps) mid)) <> None).
 Proof.
   intros (Hse & Hpre & Hmid & Hpost & Hsm) Hnd Hlen.
   rewrite loop_pre by exact Hpre. set (A0 := run [] pre) in *.
-  apply nd_run_app in Hnd as [_ Hnd]. fold A0 in Hnd. cbn [nd_run] in Hnd. destruct Hnd as [Ncs Hnd].
+  apply nd_run_app in Hnd as [Npre Hnd]. fold A0 in Hnd. cbn [nd_run] in Hnd. destruct Hnd as [Ncs Hnd].
+  assert (NA0 : NoDup (ids A0)) by (apply nd_run_last; [exact Npre|constructor]).
   set (cs := step A0 ps) in *.
   apply nd_run_app in Hnd as [Nmid Hnd]. set (Ae := run cs mid) in *. cbn [nd_run] in Hnd. destruct Hnd as [Nce _].
   cbn [iter_states remove_loop]. fold cs.
@@ -699,7 +750,7 @@ Proof.
   destruct (remove_at_start_sem sel A0 ps ps' rd0 Ncs ES) as (S1 & S2 & S3 & S4). fold cs in S1, S2.
   rewrite loop_mid by exact Hmid. destruct (mid_tr sel mid rd0) as [mid' rdm] eqn:EM. cbn [fst snd].
   assert (HI0 : Inv sel cs rd0) by (rewrite S2; now apply Inv_init).
-  destruct (mid_sem sel mid cs rd0 mid' rdm Hsm Nmid HI0 EM) as (M1 & M2 & M3 & M4). fold Ae in M2, M3.
+  destruct (mid_sem sel mid cs rd0 mid' rdm Hsm Nmid HI0 EM) as (M1 & M2 & M3 & M4 & M5). fold Ae in M2, M3.
   fold Ae. cbn [iter_states remove_loop].
   replace (en <? start) with false by (symmetry; apply Nat.ltb_ge; lia).
   replace (en <? en) with false by (symmetry; apply Nat.ltb_ge; lia).
@@ -709,7 +760,13 @@ Proof.
   destruct (rem_pass_spec sel (prem pe) Ae rdm rem' rd1 M2 ER) as (R1 & R2).
   exists ps', mid', (remove_at_end len en (step Ae pe) pe rem' rd1).
   split; [reflexivity|]. split; [exact S1|]. split; [exact M1|]. split; [exact M3|]. split; [exact M4|].
-  apply remove_at_end_sem; auto.
+  split; [apply remove_at_end_sem; auto|].
+  intros HS. apply strict_run_app in HS as [_ HS]. fold A0 in HS. cbn [strict_run] in HS. destruct HS as [HSs HS].
+  fold cs in HS. apply strict_run_app in HS as [HSm HS]. fold Ae in HS. cbn [strict_run] in HS. destruct HS as [HSe _].
+  split; [eapply start_strict; eauto|]. split; [now apply M5|].
+  destruct (strict_rems_inv _ _ (proj1 M2) HSe) as (Np & Hall).
+  destruct (rem_pass_strict sel (prem pe) Ae rdm rem' rd1 M2 Np Hall ER) as (N' & H').
+  apply remove_at_end_strict; auto. exact (proj1 M2).
 Qed.
 
 (* ---------- sorted tables: decomposition, key transfer ---------- *)
@@ -789,7 +846,8 @@ Lemma core_active sel len start en pre ps mid pe post :
   /\ (forall i, i < start -> run [] (upto i T) = run [] (upto i t'))
   /\ (forall i, start <= i < en -> run [] (upto i T) = keep sel (run [] (upto i t')))
   /\ (forall i, en <= i -> run [] (upto i T) = run [] (upto i t'))
-  /\ run [] T = run [] t'.
+  /\ run [] T = run [] t'
+  /\ (strict_run t' [] -> strict_run T []).
 Proof.
   intros t' T Hsh Hs Hnd Hkeys Hfin. pose proof Hsh as (Hse0 & _).
   assert (Hlen : en = len -> step (run (step (run [] pre) ps) mid) pe = []).
@@ -800,7 +858,7 @@ Proof.
       assert (fst kp <= len) by (apply Hkeys; unfold t'; apply in_or_app; right; right; apply in_or_app; right; right; now left).
       lia. }
   destruct (loop_shape sel len start en pre ps mid pe post Hsh Hnd Hlen)
-    as (ps' & mid' & pe' & ET & S1 & M1 & M3 & M4 & E1).
+    as (ps' & mid' & pe' & ET & S1 & M1 & M3 & M4 & E1 & St).
   fold t' in ET. fold T in ET.
   assert (Hkeys' : map fst T = map fst t').
   { rewrite ET. unfold t'. rewrite !map_app. cbn [map fst]. rewrite !map_app. cbn [map fst]. now rewrite M1. }
@@ -812,7 +870,7 @@ Proof.
     - apply (ssorted_keys mid); auto. }
   split; [exact HsT|]. split; [exact Hkeys'|].
   set (A0 := run [] pre) in *. set (cs := step A0 ps) in *. set (Ae := run cs mid) in *.
-  split; [|split; [|split]].
+  split; [|split; [|split; [|split]]].
   - intros i Hi. rewrite ET. unfold t'. rewrite !shaped_upto by assumption.
     replace (i <? start) with true by (symmetry; apply Nat.ltb_lt; lia). reflexivity.
   - intros i Hi. rewrite ET. unfold t'. rewrite !shaped_upto by assumption.
@@ -826,6 +884,12 @@ Proof.
     rewrite E1. reflexivity.
   - rewrite ET. unfold t'. rewrite !run_app, !run_cons, !run_app, !run_cons. fold A0. rewrite S1. fold cs.
     rewrite M3. fold Ae. rewrite E1. reflexivity.
+  - intros HS. destruct (St HS) as (Q1 & Q2 & Q3). rewrite ET. unfold t' in HS.
+    apply strict_run_app in HS as [HSpre HS]. fold A0 in HS. cbn [strict_run] in HS. destruct HS as [_ HS].
+    fold cs in HS. apply strict_run_app in HS as [_ HS]. fold Ae in HS. cbn [strict_run] in HS. destruct HS as [_ HSpost].
+    apply strict_run_app. split; [exact HSpre|]. fold A0. cbn [strict_run]. split; [exact Q1|].
+    rewrite S1. apply strict_run_app. split; [exact Q2|]. rewrite M3. cbn [strict_run]. split; [exact Q3|].
+    rewrite E1. exact HSpost.
 Qed.
 
 (* ---------- tput / tensure / cleanup ---------- *)
@@ -928,6 +992,29 @@ Proof.
   intros Hs. rewrite active_at_run by now apply cleanup_sorted. now rewrite upto_cleanup, run_cleanup.
 Qed.
 
+Lemma strict_run_cleanup t : forall A, strict_run t A -> strict_run (cleanup t) A.
+Proof.
+  induction t as [|[k p] t IH]; intros A H; [exact I|]. unfold cleanup in *. cbn [filter snd].
+  cbn [strict_run] in H. destruct H as [H1 H2].
+  destruct (point_is_empty p) eqn:E; cbn [negb].
+  - apply empty_point_eq in E. subst p. rewrite step_empty in H2. now apply IH.
+  - cbn [strict_run]. split; auto.
+Qed.
+
+Lemma strict_run_tput_empty k t : tget k t = None -> forall A, strict_run t A -> strict_run (tput k empty_point t) A.
+Proof.
+  induction t as [|[k' p'] t IH]; cbn [tget tput]; intros Hg A H.
+  - cbn [strict_run]. split; [cbn; discriminate|exact I].
+  - destruct (Nat.eqb k k') eqn:E1; [discriminate|]. destruct (k <? k') eqn:E2.
+    + cbn [strict_run] in *. split; [cbn; discriminate|]. rewrite step_empty. exact H.
+    + cbn [strict_run] in *. destruct H as [H1 H2]. split; auto.
+Qed.
+
+Lemma tensure_strict k t A : strict_run t A -> strict_run (tensure k t) A.
+Proof.
+  intros H. unfold tensure, tmem. destruct (tget k t) eqn:E; auto. now apply strict_run_tput_empty.
+Qed.
+
 Lemma nd_run_of_nodup t : ssorted t -> forall A, (forall i, NoDup (ids (active_upto t i A))) -> nd_run t A.
 Proof.
   induction 1 as [|k p t Hk Hs IH]; intros A H; cbn [nd_run]; auto.
@@ -939,10 +1026,13 @@ Proof.
 Qed.
 
 (* ---------- remove_core ---------- *)
-Definition rm_hyps (s : astr) (start en : nat) : Prop :=
+(* the well-formedness conditions on the receiver *)
+Definition rm_wf (s : astr) : Prop :=
   ssorted (tbl s) /\ nodup_active (tbl s) /\ strict_ok (tbl s) = true
-  /\ keys_le (tbl s) (length (base s)) /\ final_active (tbl s) = []
-  /\ start < en /\ en <= length (base s) /\ start < length (base s).
+  /\ keys_le (tbl s) (length (base s)) /\ final_active (tbl s) = [].
+(* ... and on the (already normalised, non-empty) range *)
+Definition rm_hyps (s : astr) (start en : nat) : Prop :=
+  rm_wf s /\ start < en /\ en <= length (base s) /\ start < length (base s).
 
 Theorem remove_core_base s sel start en : base (remove_core s sel start en) = base s.
 Proof. reflexivity. Qed.
@@ -954,9 +1044,9 @@ Lemma remove_core_main s sel start en : rm_hyps s start en ->
   /\ (forall k, k < start -> active_at (tbl r) k = active_at (tbl s) k)
   /\ (forall k, start <= k < en -> active_at (tbl r) k = keep sel (active_at (tbl s) k))
   /\ (forall k, en <= k -> active_at (tbl r) k = active_at (tbl s) k)
-  /\ final_active (tbl r) = [].
+  /\ final_active (tbl r) = [] /\ strict_ok (tbl r) = true.
 Proof.
-  intros (Hs & Hnd & Hst & Hk & Hf & Hse & Hen & Hstart) r.
+  intros ((Hs & Hnd & Hst & Hk & Hf) & Hse & Hen & Hstart) r.
   set (t := tbl s) in *. set (len := length (base s)) in *.
   destruct (tensure_props start t Hs) as (Ts1 & (ps & Tin1) & Ta1 & Tr1 & To1 & Ti1).
   set (t1 := tensure start t) in *.
@@ -970,15 +1060,16 @@ Proof.
   assert (Hk2 : keys_le t2 len).
   { intros x Hx. apply Ti2 in Hx as [Hx|Hx]; [lia|]. apply Ti1 in Hx as [Hx|Hx]; [lia|]. now apply Hk. }
   assert (Hf2 : run [] t2 = []) by (rewrite Tr2, Tr1; exact Hf).
+  assert (Hst2 : strict_run t2 []) by (apply tensure_strict, tensure_strict; now apply strict_ok_from_run).
   assert (Er : tbl r = cleanup (remove_loop (iter_states t2 []) len start en sel [])) by reflexivity.
   rewrite Er. clear Er. rewrite Et2 in *.
   destruct (core_active sel len start en pre ps mid pe post Hsh Ts2 Hnd2 Hk2 Hf2)
-    as (HsT & HkT & C1 & C2 & C3 & C4).
+    as (HsT & HkT & C1 & C2 & C3 & C4 & C5).
   set (T := remove_loop _ len start en sel []) in *.
   split; [now apply cleanup_sorted|]. split.
   { intros x Hx. unfold cleanup in Hx. apply filter_In in Hx as [Hx _]. revert x Hx.
     apply (keys_transfer (fun n => n <= len) T _ HkT). exact Hk2. }
-  split; [|split; [|split]].
+  split; [|split; [|split; [|split]]].
   - intros k Hkk. rewrite cleanup_active by exact HsT. rewrite C1 by exact Hkk.
     rewrite <- active_at_run by exact Ts2. apply Hact.
   - intros k Hkk. rewrite cleanup_active by exact HsT. rewrite C2 by exact Hkk.
@@ -986,4 +1077,168 @@ Proof.
   - intros k Hkk. rewrite cleanup_active by exact HsT. rewrite C3 by exact Hkk.
     rewrite <- active_at_run by exact Ts2. apply Hact.
   - rewrite final_active_run, run_cleanup, C4. exact Hf2.
+  - apply strict_ok_from_run. apply strict_run_cleanup. now apply C5.
 Qed.
+
+Section RemoveCore.
+Variables (s : astr) (sel : option (list str)) (start en : nat).
+Hypothesis H : rm_hyps s start en.
+Let r := remove_core s sel start en.
+
+(* 3. before the range nothing changes (same objects, same order) *)
+Theorem remove_core_before : forall k, k < start -> active_at (tbl r) k = active_at (tbl s) k.
+Proof. apply (remove_core_main s sel start en H). Qed.
+
+(* 2. inside the range exactly the unselected settings survive, in their old relative order *)
+Theorem remove_core_inside : forall k, start <= k < en ->
+  active_at (tbl r) k = keep sel (active_at (tbl s) k).
+Proof. apply (remove_core_main s sel start en H). Qed.
+
+(* 4. from [en] on every character has its old settings again: same objects, same order *)
+Theorem remove_core_after : forall k, en <= k -> active_at (tbl r) k = active_at (tbl s) k.
+Proof. apply (remove_core_main s sel start en H). Qed.
+
+Corollary remove_core_after_txt : forall k, en <= k ->
+  map stxt (active_at (tbl r) k) = map stxt (active_at (tbl s) k).
+Proof. intros k Hk. now rewrite remove_core_after. Qed.
+
+(* 5. preservation *)
+Theorem remove_core_sorted : ssorted (tbl r).
+Proof. apply (remove_core_main s sel start en H). Qed.
+
+Theorem remove_core_keys : keys_le (tbl r) (length (base r)).
+Proof. apply (remove_core_main s sel start en H). Qed.
+
+Theorem remove_core_strict : strict_ok (tbl r) = true.
+Proof. apply (remove_core_main s sel start en H). Qed.
+
+Theorem remove_core_final : final_active (tbl r) = [].
+Proof. apply (remove_core_main s sel start en H). Qed.
+
+Theorem remove_core_nodup : nodup_active (tbl r).
+Proof.
+  intros k. destruct H as ((_ & Hnd & _) & _).
+  destruct (lt_dec k start) as [H1|H1]; [rewrite remove_core_before by exact H1; apply Hnd|].
+  destruct (lt_dec k en) as [H2|H2].
+  - rewrite remove_core_inside by lia. apply keep_nodup, Hnd.
+  - rewrite remove_core_after by lia. apply Hnd.
+Qed.
+
+Theorem remove_core_wf : rm_wf r.
+Proof.
+  split; [apply remove_core_sorted|]. split; [apply remove_core_nodup|]. split; [apply remove_core_strict|].
+  split; [apply remove_core_keys|apply remove_core_final].
+Qed.
+End RemoveCore.
+
+(* with settings=None everything is removed inside the range *)
+Lemma keep_none l : keep None l = [].
+Proof. unfold keep. apply filter_none. reflexivity. Qed.
+
+Corollary remove_core_all s start en : rm_hyps s start en ->
+  forall k, start <= k < en -> active_at (tbl (remove_core s None start en)) k = [].
+Proof. intros H k Hk. rewrite remove_core_inside by assumption. apply keep_none. Qed.
+
+(* ---------- remove_formatting at the API level ---------- *)
+Lemma remove_fmt_noop s sel st en :
+  range_empty (length (base s)) (slice_idx (length (base s)) st 0)
+              (slice_idx (length (base s)) en (length (base s))) = true ->
+  remove_fmt s sel st en = s.
+Proof. intros H. unfold remove_fmt. now rewrite H. Qed.
+
+Lemma remove_fmt_core s sel st en :
+  let len := length (base s) in
+  let start := slice_idx len st 0 in
+  let e := slice_idx len en len in
+  range_empty len start e = false ->
+  remove_fmt s sel st en = remove_core s sel start e /\ start < e /\ e <= len /\ start < len.
+Proof.
+  intros len start e H. unfold remove_fmt. fold len start e. rewrite H. split; auto.
+  unfold range_empty in H. apply orb_false_iff in H as [H1 H2]. apply Nat.leb_gt in H1, H2.
+  split; auto. split; auto. apply slice_idx_le. lia.
+Qed.
+
+Theorem remove_fmt_spec s sel st en :
+  let len := length (base s) in
+  let start := slice_idx len st 0 in
+  let e := slice_idx len en len in
+  let r := remove_fmt s sel st en in
+  rm_wf s -> range_empty len start e = false ->
+  base r = base s
+  /\ (forall k, k < start -> active_at (tbl r) k = active_at (tbl s) k)
+  /\ (forall k, start <= k < e -> active_at (tbl r) k = keep sel (active_at (tbl s) k))
+  /\ (forall k, e <= k -> active_at (tbl r) k = active_at (tbl s) k)
+  /\ rm_wf r.
+Proof.
+  intros len start e r Hwf Hre.
+  destruct (remove_fmt_core s sel st en Hre) as (Er & H1 & H2 & H3). fold len start e in Er, H1, H2, H3.
+  assert (Hh : rm_hyps s start e) by (split; auto).
+  unfold r. rewrite Er. split; [reflexivity|].
+  split; [now apply remove_core_before|]. split; [now apply remove_core_inside|].
+  split; [now apply remove_core_after|]. now apply remove_core_wf.
+Qed.
+
+(* ---------- clear_formatting ---------- *)
+Theorem clear_fmt_full s :
+  base (clear_fmt s) = base s /\ (forall k, active_at (tbl (clear_fmt s)) k = []) /\ rm_wf (clear_fmt s).
+Proof.
+  split; [reflexivity|]. split; [reflexivity|]. unfold rm_wf, clear_fmt. cbn [tbl base].
+  split; [constructor|]. split; [intros k; constructor|]. split; [reflexivity|]. split; [intros kp []|reflexivity].
+Qed.
+
+(* ---------- the hypotheses are satisfiable: a concrete, non-trivial instance ---------- *)
+Module Ex.
+Definition a := mkS 1 [1%N].      (* two equal-valued settings with different identities *)
+Definition b := mkS 2 [1%N].
+Definition c := mkS 3 [4%N].
+Definition s0 : astr :=
+  mkA (repeat 65%N 6)
+      [(0, mkP [c; a] []); (2, mkP [b] []); (3, mkP [] [a]); (5, mkP [] [c]); (6, mkP [] [b])].
+
+Example s0_wf : rm_wf s0.
+Proof.
+  unfold rm_wf, s0. cbn [tbl base]. split; [|split; [|split; [|split]]].
+  - repeat (constructor; [intros kp Hin; cbn in Hin; intuition (subst; cbn; lia)|]). constructor.
+  - intros k. do 7 (destruct k as [|k]; [vm_compute; repeat (constructor; [cbn; intuition lia|]); constructor|]).
+    cbn. constructor.
+  - reflexivity.
+  - intros kp Hin. cbn in Hin. intuition (subst; cbn; lia).
+  - reflexivity.
+Qed.
+
+Example s0_hyps : rm_hyps s0 1 4.
+Proof. split; [exact s0_wf|]. cbn. lia. Qed.
+
+(* "1" removed from [1,4): a (starts before, ends inside) is stopped at 1 and its old stop marker at 3
+   disappears; b (starts inside, ends outside) now starts at 4, behind c as before *)
+Example s0_result :
+  tbl (remove_core s0 (Some [[1%N]]) 1 4)
+  = [(0, mkP [c; a] []); (1, mkP [] [a]); (4, mkP [b] []); (5, mkP [] [c]); (6, mkP [] [b])].
+Proof. vm_compute. reflexivity. Qed.
+
+Example s0_api : range_empty 6 (slice_idx 6 (Some 1%Z) 0) (slice_idx 6 (Some (-2)%Z) 6) = false
+  /\ remove_fmt s0 (Some [[1%N]]) (Some 1%Z) (Some (-2)%Z) = remove_core s0 (Some [[1%N]]) 1 4.
+Proof. split; vm_compute; reflexivity. Qed.
+
+Example s0_noop : range_empty 6 (slice_idx 6 (Some 4%Z) 0) (slice_idx 6 (Some 2%Z) 6) = true.
+Proof. vm_compute. reflexivity. Qed.
+
+(* clause 4 really needs closedness when the range ends at the end of the text: with en = len the
+   loop does not restart anything, so a setting left open by the receiver is closed for good *)
+Example open_receiver :
+  let s := mkA (repeat 65%N 3) [(0, mkP [a] [])] in
+  final_active (tbl s) = [a]
+  /\ active_at (tbl (remove_core s None 0 3)) 3 = [] /\ active_at (tbl s) 3 = [a].
+Proof. vm_compute. repeat split. Qed.
+End Ex.
+
+Print Assumptions remove_core_base.
+Print Assumptions remove_core_before.
+Print Assumptions remove_core_inside.
+Print Assumptions remove_core_after.
+Print Assumptions remove_core_after_txt.
+Print Assumptions remove_core_wf.
+Print Assumptions remove_core_all.
+Print Assumptions remove_fmt_noop.
+Print Assumptions remove_fmt_spec.
+Print Assumptions clear_fmt_full.
